@@ -51,6 +51,12 @@ def x_get_ident(engine, st, args, kwargs, node):
     yield st, sv_int(THREAD_ID)
 
 
+def x_main_thread(engine, st, args, kwargs, node):
+    # the interpreter's main thread: one fixed Thread object whose ident is some fixed integer (equal to the executing
+    # thread's or not)
+    yield st, engine.global_object("threading.main_thread", "Thread")
+
+
 def x_path_join(engine, st, args, kwargs, node):
     acc = engine.as_str(args[0])
     for a in args[1:]:
@@ -155,6 +161,8 @@ def install(engine):
     em = engine.ext_models
     em["os.environ.get"] = x_environ_get
     em["threading.get_ident"] = x_get_ident
+    em["threading.main_thread"] = x_main_thread
+    oc["Thread"] = {"fields": {"ident": "int", "name": "str"}, "methods": {}}
     em["os.path.join"] = x_path_join
     em["os.path.dirname"] = x_path_dirname
     em["itertools.product"] = x_product
